@@ -733,6 +733,206 @@ def get_arg_(c, pos, name):
     return c.args[pos] if pos < len(c.args) else None
 
 
+def _resolve_local(e, env, depth=6):
+    """follow single-assignment locals to the ORIGINAL node that is evaluated (its position in the function is what the flow analysis needs)"""
+    while isinstance(e, ast.Name) and e.id in env and depth:
+        e, depth = env[e.id], depth - 1
+    return e
+
+
+def r19_merge_conserves_solvent_atoms(idx, r):
+    """A component with `mergeWith:` is dissolved into its solvent: S.mergeNuclidesInto(V) adds the solute's atoms, per NEW area of V, to
+    V's number densities as they stand.  Atoms are conserved (A_new N_new = A_S N_S + A_old N_old) only when the caller has multiplied V's
+    own densities by A_old / A_new before - on EVERY path to the merge (a DerivedShape solvent grows too: by the removal of the solute), once,
+    with A_old read before anything enlarged V and A_new read after V has its final dimensions.  Family: every caller of mergeNuclidesInto."""
+    n = 0
+    for m in idx.modules.values():
+        if ".tests" in m.name or "mergeNuclidesInto" not in m.src:
+            continue
+        for f in m.all_funcs():
+            merges = [c for c in iter_calls(f.node, include_nested=False) if isinstance(c.func, ast.Attribute) and c.func.attr == "mergeNuclidesInto" and len(c.args) + len(c.keywords) == 1]
+            if not merges:
+                continue
+            env = single_assign_env(f.node)
+            for mc in merges:
+                n += 1
+                solute = norm(mc.func.value)
+                vnode = mc.args[0] if mc.args else mc.keywords[0].value
+                if dotted(vnode) is None:
+                    r.undecided(f"{f.qualname}:merge-target", f, "the component merged into is not a plain name", node=mc)
+                    continue
+                solvent = norm(vnode)
+                dils = [c for c in iter_calls(f.node, include_nested=False) if call_attr(c) == "changeNDensByFactor" and isinstance(c.func, ast.Attribute) and norm(c.func.value) == solvent and len(c.args) + len(c.keywords) == 1]
+                # operands of the dilution factors: (old-area read, new-area read), original nodes
+                olds, news, unrec = {}, {}, []
+                for d in dils:
+                    fac = _resolve_local(d.args[0] if d.args else d.keywords[0].value, env)
+                    num = _resolve_local(fac.left, env) if isinstance(fac, ast.BinOp) and isinstance(fac.op, ast.Div) else None
+                    den = _resolve_local(fac.right, env) if num is not None else None
+                    def is_area(x):
+                        return isinstance(x, ast.Call) and isinstance(x.func, ast.Attribute) and x.func.attr in ("getArea", "getVolume") and norm(x.func.value) == solvent
+                    if is_area(num) and is_area(den) and num.func.attr == den.func.attr:
+                        olds[id(num)], news[id(den)] = num, den
+                    else:
+                        unrec.append(d)
+
+                def grows(x):
+                    """a call after which the solvent covers more area: its own dimensions are set, or the solute leaves the block"""
+                    if not isinstance(x, ast.Call) or not isinstance(x.func, ast.Attribute):
+                        return False
+                    if x.func.attr == "setDimension" and norm(x.func.value) == solvent:
+                        return True
+                    return x.func.attr == "remove" and bool(x.args) and norm(x.args[0]) == solute
+
+                def ev(x):
+                    out = []
+                    if isinstance(x, ast.Call):
+                        if any(x is d for d in dils):
+                            out.append("diluted")
+                        if grows(x):
+                            out.append("grown")
+                        if id(x) in news:
+                            out.append("new-area-read")
+                    return out
+                fl = Flow(f.node, ev).run()
+                lo, hi = (fl.state_before(mc) or {}).get("diluted", (0, 0))
+                where_ = sorted({" and ".join(f"{'' if p else 'not '}({norm(t)[:60]})" for t, p in path_conditions(f.node, d)) or "unconditionally" for d in dils})
+                r.require(lo >= 1 and hi <= 1, f"{f.qualname}:solvent-diluted-once-on-every-path-to-the-merge", f, node=mc,
+                          msg=f"`{norm(mc)}` can be reached with `{solvent}.changeNDensByFactor(old area / new area)` executed {'not at all' if lo < 1 else 'more than once'} (it runs only under: {'; '.join(where_) or 'no path at all'}): "
+                              f"`{solvent}` took in the area of `{solute}` but keeps its own number densities undiluted - e.g. a wire with `mergeWith: coolant` (a DerivedShape solvent) builds a block with more "
+                              "coolant atoms than the blueprint describes")
+                for d in unrec:
+                    r.undecided(f"{f.qualname}:dilution-factor", f, f"`{norm(d)}`: factor not recognised as <area of {solvent} before> / <area of {solvent} after>", node=d)
+                for o in olds.values():
+                    g = (fl.state_before(o) or {}).get("grown", (0, 0))
+                    r.require(g[1] == 0, f"{f.qualname}:old-area-read-before-the-solvent-grows", f, node=o,
+                              msg=f"the numerator of the dilution factor, `{norm(o)}`, is read after `{solvent}` may already have grown (setDimension on it / removal of `{solute}`): the factor is 1 where it must be "
+                                  "A_old / A_new and the solvent's own atoms are over-counted")
+                grow_calls = [x for x in iter_calls(f.node, include_nested=False) if grows(x)]
+                if news:
+                    late = [x for x in grow_calls if (fl.state_before(x) or {}).get("new-area-read", (0, 0))[1] > 0]
+                    r.require(not late, f"{f.qualname}:new-area-read-after-the-solvent-has-its-final-dimensions", f, node=late[0] if late else next(iter(news.values())),
+                              msg=f"`{norm(late[0]) if late else ''}` can still enlarge `{solvent}` after the new area of the dilution factor was read: the solvent's atoms are diluted for a smaller area than the one the solute is merged into")
+    if n < 1:
+        raise AnchorMissing("no caller of Component.mergeNuclidesInto found (how are `mergeWith:` components dissolved?)")
+
+
+_CLASS_FEEDS = ("class1_custom_isotopics", "class2_custom_isotopics")
+_CLASS_MODS = _CLASS_FEEDS + ("class1_wt_frac",)
+
+
+def _mod_names_in(e, names):
+    """which of the material-modification names an expression mentions (as a variable, an attribute or a string key)"""
+    out = set()
+    for x in ast.walk(e):
+        s = x.id if isinstance(x, ast.Name) else x.attr if isinstance(x, ast.Attribute) else x.value if isinstance(x, ast.Constant) and isinstance(x.value, str) else None
+        if s in names:
+            out.add(s)
+    return out
+
+
+def r20_class1_class2_channel(idx, r):
+    """`class1_wt_frac` is the weight fraction of the CLASS-1 feed in the heavy metal.  Followed from the blueprint keyword to the product:
+    (a) each of the modifications class1_custom_isotopics / class2_custom_isotopics / class1_wt_frac is stored under its own name where a
+    material receives it; (b) densityTools.applyIsotopicsMix - decided by polynomial algebra on the value it stores - writes
+    H * (w * A[n] + (1 - w) * B[n]) with w = material.class1_wt_frac: A is its class-1 parameter, B its class-2 parameter; (c) every caller
+    hands the vector selected by class1_custom_isotopics to A and the one selected by class2_custom_isotopics to B."""
+    from ..exprnf import ExprEval, Poly
+    g = idx.func("armi.utils.densityTools.applyIsotopicsMix")
+    if g is None:
+        raise AnchorMissing("densityTools.applyIsotopicsMix")
+    ps = g.params()
+    mat, feeds = ps[0], ps[1:]
+    if len(feeds) != 2:
+        raise AnalysisError(f"applyIsotopicsMix: expected (material, class-1 feed, class-2 feed), found {ps}")
+    env = single_assign_env(g.node)
+    sts = [s_ for s_ in iter_stores(g.node) if s_.kind == "subscript" and s_.chain == f"{mat}.massFrac" and s_.value is not None]
+    if not sts:
+        raise AnchorMissing("applyIsotopicsMix: store into material.massFrac[nuclide]")
+
+    class _Feeds(ast.NodeTransformer):
+        def visit_Call(self, x):
+            if isinstance(x.func, ast.Attribute) and x.func.attr == "get" and isinstance(x.func.value, ast.Name) and x.func.value.id in feeds and not x.keywords \
+                    and (len(x.args) == 1 or (len(x.args) == 2 and isinstance(x.args[1], ast.Constant) and x.args[1].value in (0, 0.0) and not isinstance(x.args[1].value, bool))):
+                return ast.Name(id="__feed__" + x.func.value.id, ctx=ast.Load())
+            return self.generic_visit(x)
+
+        def visit_Subscript(self, x):
+            if isinstance(x.value, ast.Name) and x.value.id in feeds:
+                return ast.Name(id="__feed__" + x.value.id, ctx=ast.Load())
+            return self.generic_visit(x)
+    W = Poly.atom("w")
+    roles = None
+    for s_ in sts:
+        v = _Feeds().visit(propagate(s_.value, env))
+        p = ExprEval(env={**{"__feed__" + q: Poly.atom("feed:" + q) for q in feeds}, f"{mat}.class1_wt_frac": W}).ev(v)
+        cs = [p.coeff("feed:" + q, 1) for q in feeds]
+        lin = all(p.degree_in("feed:" + q) == (0, 1) for q in feeds) and (p - sum((c * Poly.atom("feed:" + q) for c, q in zip(cs, feeds)), Poly())).iszero()
+        tot = cs[0] + cs[1]
+        got = None
+        if lin and not tot.iszero() and tot.degree_in("w") == (0, 0):
+            if cs[0] == tot * W and cs[1] == tot - tot * W:
+                got = (feeds[0], feeds[1])
+            elif cs[1] == tot * W and cs[0] == tot - tot * W:
+                got = (feeds[1], feeds[0])
+        r.require(got is not None, "applyIsotopicsMix:blend-is-w-times-one-feed-plus-(1-w)-times-the-other", g, node=s_.stmt,
+                  msg=f"`{norm(s_.stmt)[:120]}` is not H * (w * A[n] + (1 - w) * B[n]) with w = {mat}.class1_wt_frac (coefficients of the feeds: {cs[0]!r} and {cs[1]!r}): "
+                      "the heavy metal is not the class1_wt_frac / (1 - class1_wt_frac) blend of the two custom isotopic vectors the blueprint names")
+        if got is not None:
+            if roles is not None and roles != got:
+                raise AnalysisError("applyIsotopicsMix: two stores weight the feeds differently")
+            roles = got
+    # (a) keyword -> attribute of the same name, wherever a material receives the modifications
+    na = 0
+    for m in idx.modules.values():
+        if not m.name.startswith("armi.materials") or ".tests" in m.name or "class1_wt_frac" not in m.src:
+            continue
+        for f in m.all_funcs():
+            if f.cls is None or not set(f.params()) & set(_CLASS_MODS):
+                continue
+            fenv = single_assign_env(f.node)
+            for s_ in iter_stores(f.node, include_nested=False):
+                if s_.kind == "assign" and isinstance(s_.node, ast.Attribute) and s_.attr in _CLASS_MODS and s_.value is not None:
+                    src = _mod_names_in(propagate(s_.value, fenv), _CLASS_MODS)
+                    if not src:
+                        continue
+                    na += 1
+                    r.require(src == {s_.attr}, f"{f.cls.name}.{f.name}:{s_.attr}-stored-under-its-own-name", f, node=s_.stmt,
+                              msg=f"`{norm(s_.stmt)}` stores the modification {sorted(src)} as `{s_.attr}`: the class-1 and class-2 entries of the blueprint change places (or the weight is lost) before the blend is computed")
+    if na < 3:
+        raise AnchorMissing("materials: where class1_custom_isotopics / class2_custom_isotopics / class1_wt_frac are stored on the material")
+    if roles is None:
+        return
+    # (c) every caller
+    nc = 0
+    want = {roles[0]: _CLASS_FEEDS[0], roles[1]: _CLASS_FEEDS[1]}
+    for m in idx.modules.values():
+        if ".tests" in m.name or "applyIsotopicsMix" not in m.src:
+            continue
+        for f in m.all_funcs():
+            calls = [c for c in iter_calls(f.node, include_nested=False) if call_attr(c) == "applyIsotopicsMix"]
+            if not calls:
+                continue
+            fenv = single_assign_env(f.node)
+            for c in calls:
+                if any(isinstance(a, ast.Starred) for a in c.args) or any(k_.arg is None for k_ in c.keywords):
+                    r.undecided(f"{f.qualname}:applyIsotopicsMix-arguments", f, "star arguments: which vector reaches which feed is not decided", node=c)
+                    continue
+                nc += 1
+                bound = {q: get_arg_(c, ps.index(q), q) for q in feeds}
+                tags = {q: _mod_names_in(propagate(a, fenv), _CLASS_FEEDS) if a is not None else set() for q, a in bound.items()}
+                if not any(tags.values()):
+                    r.undecided(f"{f.qualname}:applyIsotopicsMix-arguments", f, "the feeds are not selected by class1_custom_isotopics / class2_custom_isotopics here", node=c)
+                    continue
+                for q in feeds:
+                    r.require(tags[q] == {want[q]}, f"{f.qualname}:{want[q]}-reaches-the-feed-weighted-by-{'class1_wt_frac' if q == roles[0] else '(1-class1_wt_frac)'}", f, node=c,
+                              msg=f"`{norm(c)[:100]}`: parameter `{q}` of applyIsotopicsMix is weighted by {'class1_wt_frac' if q == roles[0] else '1 - class1_wt_frac'} but receives "
+                                  f"`{norm(propagate(bound[q], fenv))[:70] if bound[q] is not None else '<nothing>'}` (selected by {sorted(tags[q]) or 'neither name'}): with two different vectors and "
+                                  "class1_wt_frac != 0.5 the fuel is built with the two feeds in exchanged proportions")
+    if nc < 1:
+        raise AnchorMissing("no caller of densityTools.applyIsotopicsMix found")
+
+
 def run(idx, chk):
     chk.explanation = (
         "C18 is a relation between an input document and an object graph; static analysis claims only: (1) each lattice-map class reads and "
@@ -779,3 +979,7 @@ def run(idx, chk):
                  necessary="every entry of a lattice map lands on the cell it is drawn at; components have the cold dimensions the blueprint states")
     chk.run_rule("R18.18", "only the shifted line number after the shift; x pitch = width, y pitch = height; materials hand *args/**kwargs on", lambda r: r18_shifted_line_pitch_axes_star_args(idx, r), floor=7,
                  necessary="every entry of a map lands on its cell, at its place; requested material modifications reach the material")
+    chk.run_rule("R18.19", "before S.mergeNuclidesInto(V) the solvent V is diluted by (its area before) / (its area after), once, on every path", lambda r: r19_merge_conserves_solvent_atoms(idx, r), floor=3,
+                 necessary="components have the specified composition: a `mergeWith:` component's atoms are added to a solvent that keeps exactly its own atoms (A_new N_new = A_S N_S + A_old N_old), whatever the solvent's shape")
+    chk.run_rule("R18.20", "class1/class2 blend: modifications stored under their own names; applyIsotopicsMix = H*(w*A+(1-w)*B); callers hand the class-1 vector to A, the class-2 vector to B", lambda r: r20_class1_class2_channel(idx, r), floor=6,
+                 necessary="composition after the requested material modifications: class1_wt_frac is the weight fraction of the vector named by class1_custom_isotopics, 1 - class1_wt_frac that of class2_custom_isotopics")
